@@ -6,7 +6,7 @@ step    := [method, [arg...], {kw: arg}?, then-step?]   (applied to the result o
            step is applied to the Query class; "then" chains on the result, e.g. join(...).on(...))
 src     := ["tbl", name, schema, alias, temporal?] | ["sub", program, alias] | ["cte", name]
 arg     := expression | ["src", key] | ["py", json] | ["pyv", kind, text] | ["q", program] | ["enum", Enum, member]
-           | ["mkcols", [arg]] (spread: *Columns(...)) | ["pylist", [arg]] | ["pytuple", [arg]] | ["pyset", [arg]] | ["slice", a, b] | ["index", name]
+           | ["mkcols", [arg]] (spread: *Columns(...)) | ["pylist", [arg]] | ["pytuple", [arg]] | ["pyset", [arg]] | ["pyfrozenset", [arg]] | ["slice", a, b] | ["index", name]
            | ["column", name, type, nullable, default-arg] | ["edge", "Preceding"|"Following", n] | ["currow"]
 """
 from __future__ import annotations
@@ -191,6 +191,8 @@ def build_arg(node, env):
         return tuple(build_arg(a, env) for a in node[1])
     if k == "pyset":
         return set(build_arg(a, env) for a in node[1])
+    if k == "pyfrozenset":
+        return frozenset(build_arg(a, env) for a in node[1])
     if k == "mkcols":
         return _Splat(P.Columns(*[build_arg(a, env) for a in node[1]]))
     if k == "slice":
